@@ -39,15 +39,24 @@ def rand_ctor_kwargs(rng: random.Random, gen: str, n: int) -> dict:
     kw: dict = {}
     total = n * n
     if gen in ("gen_dfs", "gen_prim", "gen_dfs_percolation") and rng.random() < 0.35:
+        # counts (int) or proportions (float, incl. the whole-valued 1.0, which means "all" as a float and "one" as an int);
+        # gen_dfs_percolation documents ints only
+        prop_ok = gen != "gen_dfs_percolation"
         if rng.random() < 0.5:
-            kw["accessible_cells"] = rng.randint(2, total)
+            if prop_ok and rng.random() < 0.4:
+                kw["accessible_cells"] = rng.choice([1.0, 0.5, 0.75, round(rng.uniform(0.3, 1.0), 2)])
+            else:
+                kw["accessible_cells"] = rng.randint(2, total)
         if rng.random() < 0.4:
-            kw["max_tree_depth"] = rng.randint(2, 2 * total)
+            if prop_ok and rng.random() < 0.4:
+                kw["max_tree_depth"] = rng.choice([1.0, 0.5, round(rng.uniform(0.3, 1.0), 2)])
+            else:
+                kw["max_tree_depth"] = rng.randint(2, 2 * total)
         if gen != "gen_dfs_percolation" and rng.random() < 0.3:
             kw["do_forks"] = rng.random() < 0.5
     if gen in ("gen_percolation", "gen_dfs_percolation"):
         if rng.random() < 0.7:
-            kw["p"] = rng.choice([0.1, 0.3, 0.4, 0.5, 0.7, 0.9, round(rng.random(), 2)])
+            kw["p"] = rng.choice([0.1, 0.3, 0.4, 0.5, 0.7, 0.9, 1.0, round(rng.random(), 2)])
     if gen != "gen_wilson" and rng.random() < 0.2:
         kw["start_coord"] = [rng.randrange(n), rng.randrange(n)]
     return kw
